@@ -4,9 +4,12 @@ import (
 	"encoding/json"
 	"fmt"
 	"os"
+	"strings"
 
 	"verif/internal/chk"
+	"verif/internal/dt"
 	"verif/internal/impl"
+	"verif/internal/model"
 	"verif/internal/run"
 )
 
@@ -36,8 +39,10 @@ var c16Projects = []struct{ Name, Text string }{
 }
 
 type c16Params struct {
-	Len       int `json:"len"`
-	CorpusLen int `json:"corpus_len"`
+	Len         int `json:"len"`
+	CorpusLen   int `json:"corpus_len"`
+	ModelBudget int `json:"model_budget"`
+	ModelLen    int `json:"model_len"`
 }
 
 const c16Ops = "JIOPT"
@@ -77,6 +82,16 @@ func workC16(w *run.W) {
 		f := f
 		projs = append(projs, proj{"corpus:" + f, func() *impl.Built { return impl.BuildDisk(f) }, p.CorpusLen})
 	}
+	mi := 0
+	model.EnumDocs(model.DefaultPalette(), p.ModelBudget, 0, func(d *model.Doc) {
+		mi++
+		l := canonGlobal.Layout()
+		l.Only = map[string]bool{}
+		l.Reset()
+		r := dt.Render(d.ToTree(&l), &l)
+		txt := r.Files[r.Root]
+		projs = append(projs, proj{fmt.Sprintf("model%d", mi), func() *impl.Built { return impl.BuildMem("root.jst", txt) }, p.ModelLen})
+	})
 	hcache := map[int][]string{}
 	for i, pr := range projs {
 		if !w.Mine(int64(i)) || !w.Begin(pr.name) {
@@ -89,6 +104,9 @@ func workC16(w *run.W) {
 			continue
 		}
 		w.Count("projects", 1)
+		if strings.HasPrefix(pr.name, "model") {
+			w.Count("model_projects", 1)
+		}
 		// reference: each accessor called once on its own fresh build
 		ref := map[byte]string{}
 		for k := 0; k < len(c16Ops); k++ {
@@ -142,7 +160,7 @@ func firstDiff(a, b string) string {
 }
 
 func runC16(c *chk.Ctx) {
-	p := c16Params{Len: chk.Pick(c, 5, 6), CorpusLen: chk.Pick(c, 3, 4)}
+	p := c16Params{Len: chk.Pick(c, 5, 6), CorpusLen: chk.Pick(c, 3, 4), ModelBudget: chk.Pick(c, 2, 3), ModelLen: chk.Pick(c, 4, 3)}
 	r := c.Pool.Run("c16", p)
 	c.Merge(r, "histories")
 	cnt := c.Counts()
@@ -152,7 +170,10 @@ func runC16(c *chk.Ctx) {
 	c.Cov["projects"] = cnt["projects"]
 	c.Cov["history_len_builtin"] = p.Len
 	c.Cov["history_len_corpus"] = p.CorpusLen
+	c.Cov["model_projects"] = cnt["model_projects"]
+	c.Cov["model_node_budget"] = p.ModelBudget
+	c.Cov["history_len_models"] = p.ModelLen
 	c.Cov["distinct_observed_outcomes"] = cnt["distinct_outcomes"]
-	c.Cov["rule"] = "every call sequence over {ToJson, ToJsonIndent, ToOpenAPIJson, ToOpenAPIJsonIndent, Title} up to the length bound, each on a fresh build of each project (hand-written projects exercising every lazily built piece + every accepted corpus file); every call's result (bytes, error text or panic text) must equal that accessor's result when it is the only call on a fresh build"
+	c.Cov["rule"] = "every call sequence over {ToJson, ToJsonIndent, ToOpenAPIJson, ToOpenAPIJsonIndent, Title} up to the length bound, each on a fresh build of each project (hand-written projects exercising every lazily built piece + every accepted corpus file + every generated model up to the node budget); every call's result (bytes, error text or panic text) must equal that accessor's result when it is the only call on a fresh build"
 	c.Cov["exhaustive"] = true
 }
